@@ -265,6 +265,15 @@ def resmgr_cases(rng, thorough):
     return cs
 
 
+def round6_cases(thorough):
+    """a periodic stats report of the mapping handler parked in its upload while Stop runs the final report (byte conservation
+    oracle); a bridge with unreported traffic closed while the statistics backend does not answer (each costs the 5 s guard)"""
+    cs = [{"mode": "mapping_stats", "point": a, "reads": b, "side": f} for a, b in ((1000, 0), (1000, 60)) + (((7, 4096), (64, 2)) if thorough else ()) for f in (0, 1)]
+    # quick: the lifecycle-shaped case comes from corpus/C16/20_* (each hung-backend case costs the 5 s production guard)
+    cs += [{"mode": "bridge_hung_backend", "side": sd} for sd in ((0,) if thorough else ())]
+    return cs
+
+
 def throttle_cases(thorough):
     """a bandwidth-limited bridge (100 B/s .. 1 KB/s) closed while a copy direction holds one chunk far larger than the bucket"""
     base = [(100, 4096, 1), (1024, 32768, 2)] + ([(256, 8192, 3), (1000, 16384, 1)] if thorough else [])
@@ -307,7 +316,7 @@ def zenc(z):
 
 
 def case_value(c, o, tunnel_fixed, traffic_fixed, stream_fixed=True, start_ctx_first=True, start_spawns=3, writer_holds=False, flags=None):
-    flags = flags or {"lock_first": True, "mapping_early_return": False, "bridge_fast_path": False, "remove_first": True, "chan_buffered": True, "dispose_copies": True, "throttle_ctx": True}
+    flags = flags or {"lock_first": True, "mapping_early_return": False, "bridge_fast_path": False, "remove_first": True, "chan_buffered": True, "dispose_copies": True, "throttle_ctx": True, "stats_swap": True, "cleanup_guarded": True}
     m = c["mode"]
     if m == "tunnel_start":
         sd = o["steps_done"]
@@ -318,6 +327,10 @@ def case_value(c, o, tunnel_fixed, traffic_fixed, stream_fixed=True, start_ctx_f
         return [5, start_ctx_first, start_spawns, sd, [o["state"], o["on_closed"], 1 if o["start_ok"] else 0, 1 if o["left"] else 0]]
     if m == "session_overlap":
         return [10, flags["remove_first"], bool(c["side"]), [bool(c["reads"] >> i & 1) for i in range(max(1, c["k"]))], o["stream_closes"]]
+    if m == "mapping_stats":
+        return [15, flags["stats_swap"], c["point"], c["reads"], bool(c["side"]), zenc(o["up_sent"]), zenc(o["local_sent"])]
+    if m == "bridge_hung_backend":
+        return [16, flags["cleanup_guarded"], bool(o["returned"])]
     if m == "bridge_throttle":
         return [14, flags["throttle_ctx"], max(1, c.get("k", 1)), bool(o["close_returned"]), bool(o["start_returned"])]
     if m == "res_mgr" and c.get("during"):
@@ -398,14 +411,15 @@ def run(ctx, only_cases=None):
     flags3 = {"lock_first": flag("StreamLockBeforeClosedCheck"), "mapping_early_return": flag("MappingCleanupEarlyReturn"),
               "bridge_fast_path": flag("BridgeCloseFastPath"), "remove_first": flag("CloseConnectionRemovesFirst"),
               "chan_buffered": flag("DisposeResultChanBuffered"), "dispose_copies": flag("DisposeAllCopiesOrder"),
-              "throttle_ctx": flag("ThrottleWaitUsesContext")}
+              "throttle_ctx": flag("ThrottleWaitUsesContext"), "stats_swap": flag("MappingStatsSwaps"),
+              "cleanup_guarded": flag("BridgeCleanupReportGuarded")}
     start_spawns = int(re.search(r"Definition TunnelStartSpawns : nat := (\d+)\.", gen_text).group(1))
     broken = None
     try:
         pinfo = vlib.coq_properties("C16")
         vlib.coq_make(["Proofs/SideC16.vo"])
         vlib.proof_coverage(ctx, pinfo, "make -C coq Properties/C16.vo Proofs/SideC16.vo && coqc Properties/C16.v (Print Assumptions audit)",
-                            extra_obligations=14)
+                            extra_obligations=16)
     except vlib.Broken as b:
         broken = b
     ibin = None
@@ -431,7 +445,7 @@ def run(ctx, only_cases=None):
         cases += start_close_cases(ctx.rng, thorough)
         cases += stall_cases(thorough)
         cases += queue_cases() + fault_cases(ctx.rng, thorough) + attach_cases(ctx.rng, thorough)
-        cases += resmgr_cases(ctx.rng, thorough) + overlap_cases(thorough) + throttle_cases(thorough)
+        cases += resmgr_cases(ctx.rng, thorough) + overlap_cases(thorough) + throttle_cases(thorough) + round6_cases(thorough)
         cases += race_cases(ctx.rng, thorough)
     is_instr = lambda c: c["mode"] == "tunnel_sched" or (c["mode"] == "tunnel_start" and c["point"] >= 0)
     plain = [c for c in cases if not is_instr(c)]
@@ -462,7 +476,8 @@ def run(ctx, only_cases=None):
     # ---- model vs implementation on the deterministic modes ----
     # stream_gate reads=1 parks inside io.ReadFull, which holds its own copy of the reader: outside the model's granularity
     det = [(c, o) for c, o in done if c["mode"] in ("dispose_hist", "tunnel_seq", "tunnel_sched", "traffic_gate", "stream_gate",
-                                                     "tunnel_start", "bridge_stall", "stream_queue", "fault_close", "bridge_attach", "session_overlap", "res_mgr", "bridge_throttle")
+                                                     "tunnel_start", "bridge_stall", "stream_queue", "fault_close", "bridge_attach", "session_overlap", "res_mgr", "bridge_throttle", "mapping_stats", "bridge_hung_backend")
+           and ("up_sent" in o or c["mode"] != "mapping_stats") and ("returned" in o or c["mode"] != "bridge_hung_backend")
            and o.get("key") != "bridge-throttle-setup" and ("start_returned" in o or c["mode"] != "bridge_throttle")
            and not (c["mode"] == "res_mgr" and not c.get("timeout_path") and not c.get("during") and any(e["op"] not in ("register", "unregister", "dispose_all") or e.get("a", 0) >= 100 for e in c["events"]))
            and ("stream_closes" in o or c["mode"] != "session_overlap") and ("dispose_log" in o or c["mode"] != "res_mgr")
@@ -521,7 +536,7 @@ def run(ctx, only_cases=None):
             nontriv.add(json.dumps(c, sort_keys=True))
         elif c["mode"] == "bridge_stall" or (c["mode"] == "stream_queue" and o.get("b_parked_on_lock")):
             nontriv.add(json.dumps(c, sort_keys=True))
-        elif c["mode"] == "session_overlap" or (c["mode"] == "res_mgr" and len(c["events"]) >= 3) or (c["mode"] == "bridge_throttle" and o.get("parked_in_throttle")):
+        elif c["mode"] in ("mapping_stats", "bridge_hung_backend") or c["mode"] == "session_overlap" or (c["mode"] == "res_mgr" and len(c["events"]) >= 3) or (c["mode"] == "bridge_throttle" and o.get("parked_in_throttle")):
             nontriv.add(json.dumps(c, sort_keys=True))
         elif c["mode"] == "fault_close" and c["reads"] != 0:
             nontriv.add(json.dumps(c, sort_keys=True))
@@ -529,7 +544,7 @@ def run(ctx, only_cases=None):
             nontriv.add(json.dumps(c, sort_keys=True))
     trials = sum(o.get("trials", 0) for c, o in done if c["mode"].endswith("race"))
     samples = []
-    for mode in ("dispose_hist", "tunnel_sched", "traffic_gate", "tunnel_start", "bridge_stall", "stream_queue", "fault_close", "bridge_attach", "res_mgr", "session_overlap", "bridge_throttle", "tunnel_race"):
+    for mode in ("dispose_hist", "tunnel_sched", "traffic_gate", "tunnel_start", "bridge_stall", "stream_queue", "fault_close", "bridge_attach", "res_mgr", "session_overlap", "bridge_throttle", "mapping_stats", "bridge_hung_backend", "tunnel_race"):
         for c, o in done:
             if c["mode"] == mode:
                 samples.append({"case": c, "observed": {k: v for k, v in o.items() if k not in ("prop_msg",)}})
@@ -548,7 +563,8 @@ def run(ctx, only_cases=None):
                 "with 1 or 3 concurrent callers, attach-after-close histories of the bridge up to length 3 ended by the lifecycle's Close, ResourceManager histories "
                 "(Register / Unregister / DisposeAll, the timeout path of DisposeWithTimeout with a gated slow resource, DisposeAll while "
                 "another is parked, concurrent DisposeAll, Register calls made while a DisposeAll runs - re-entrant from a resource's Dispose and "
-                "from another goroutine), bandwidth-limited bridges closed while a copy direction waits for tokens, a closer parked inside the stream Close of a session connection while 1-3 more "
+                "from another goroutine), bandwidth-limited bridges closed while a copy direction waits for tokens, the mapping handler's periodic stats report parked in its "
+                "upload while Stop runs the final report (byte conservation), a bridge closed while the statistics backend does not answer, a closer parked inside the stream Close of a session connection while 1-3 more "
                 "closers (CloseConnection / SessionManager.Close) run. non-trivial = at least two closers/reporters really "
                 "interleave (>=2 closes or close+add; >=2 parked closers; >=2 sequential ops; >=2 started reporters with a positive add; a Close that really landed inside Start; every stalled-peer case; a really parked queued operation; a non-empty failure mask; a history with an attach); "
                 "distinct by the full case. Contention loops (K goroutines behind a barrier, exactly-once counters, goroutine-dump diff) are "
@@ -566,7 +582,8 @@ def run(ctx, only_cases=None):
                          "stream_lock_before_closed_check": flags3["lock_first"], "mapping_cleanup_early_return": flags3["mapping_early_return"],
                          "bridge_close_fast_path": flags3["bridge_fast_path"],
                          "close_connection_removes_first": flags3["remove_first"], "dispose_result_chan_buffered": flags3["chan_buffered"],
-                         "dispose_all_copies_order": flags3["dispose_copies"], "throttle_wait_uses_context": flags3["throttle_ctx"]},
+                         "dispose_all_copies_order": flags3["dispose_copies"], "throttle_wait_uses_context": flags3["throttle_ctx"],
+                         "mapping_stats_swaps": flags3["stats_swap"], "bridge_cleanup_report_guarded": flags3["cleanup_guarded"]},
         "tunnel_race_double_bodies_seen": sum(o.get("doubles", 0) for c, o in done if c["mode"] == "tunnel_race"),
         "generated_file_changed": gen_changed,
     })
